@@ -4,6 +4,7 @@
 mod codec;
 mod eff;
 mod eng;
+mod pm;
 mod rm;
 
 use std::io::{BufRead, BufWriter, Write};
@@ -14,6 +15,7 @@ fn run_case(toks: &[&str]) -> String {
         Some("eff") => eff::run_eff(toks),
         Some("effnew") => eff::run_effnew(toks),
         Some("rm") => rm::run_rm(toks),
+        Some("pm") => pm::run_pm(toks),
         Some("eng") => eng::run_eng(toks, false),
         Some("engc") => eng::run_eng(toks, true),
         Some("twin") => eng::run_twin(toks),
